@@ -403,6 +403,9 @@ func checkC09(c *Ctx) {
 			case strings.Contains(s, "select "):
 			case func() bool { t, ok := m.loopCounterBound(l); return ok && t <= 8 }():
 				// the header test of a small counted retry loop around the deletion
+			case m.resultOfFrameFunction(l, stopFr, op.Call):
+				// the outcome of an earlier cycle of the read-and-delete itself (a retry loop that
+				// switches on the status its own helper returned)
 			case m.isWaitHelperResult(l):
 				// the outcome of a wait helper: which case of its select was taken
 			case m.verdictCall(Lit{S: l.S, Truth: true}) != nil:
@@ -427,25 +430,40 @@ func checkC09(c *Ctx) {
 				// the stop began, can land between them: the delete of the revision that was read is
 				// refused although the record is still the instance's own.
 				if op.Extension != "" {
-					var del ssa.Instruction = op.Call
-					if lifted := m.liftTo(vc.Parent(), op.Call); lifted != nil {
-						del = lifted
-					} else {
-						for _, ci := range stopFr.Chain {
-							if ci.Parent() == vc.Parent() {
-								del = ci
+					// the retry may sit in the function that reads and deletes, or in a caller that
+					// repeats a read-and-delete-once helper: look at each level of the frame
+					retried := false
+					delPos := c.posOf(op.Call)
+					g := vc.Parent()
+					for lvl := 0; lvl < 4 && g != nil && !retried; lvl++ {
+						ld, lv := m.liftTo(g, op.Call), m.liftTo(g, vc)
+						if ld == nil {
+							for _, ci := range stopFr.Chain {
+								if ci.Parent() == g {
+									ld = ci
+								}
 							}
 						}
-					}
-					retried := del.Parent() == vc.Parent() && reachableAfter(del, func(x ssa.Instruction) bool { return x == ssa.Instruction(vc) }) != nil
-					// a counted loop around the read must allow a second cycle
-					for _, l := range m.GuardsAt(vc) {
-						if trips, ok := m.loopCounterBound(l); ok && trips < 2 {
-							retried = false
+						if ld != nil && lv != nil && reachableAfter(ld, func(x ssa.Instruction) bool { return x == lv }) != nil {
+							retried = true
+							delPos = c.posOf(ld)
+							// a counted loop around the read must allow a second cycle
+							for _, l := range m.GuardsAt(lv) {
+								if trips, ok := m.loopCounterBound(l); ok && trips < 2 {
+									retried = false
+								}
+							}
 						}
+						sites := m.callers[g]
+						if g.Parent() != nil || len(sites) != 1 || sites[0].IsGo {
+							break
+						}
+						g = sites[0].Caller
 					}
+					del := op.Call
+					_ = del
 					c.check(retried, "R10", "a refused conditional delete is followed by a new ownership read in "+shortFn(vc.Parent()), op.Call,
-						"from the conditional delete (%s) the ownership read %s is reachable again: %v. Without a retry a heartbeat Update that was in flight when the stop began and lands between the read and the delete leaves the owner's record in the store (no longer refreshed) while StopWithContext{DeleteKey} returns nil: the successor waits for the expiry.", c.posOf(del), shortFn(g), retried)
+						"from the conditional delete (or the call that leads to it, %s) the ownership read %s is reachable again: %v. Without a retry a heartbeat Update that was in flight when the stop began and lands between the read and the delete leaves the owner's record in the store (no longer refreshed) while StopWithContext{DeleteKey} returns nil: the successor waits for the expiry.", delPos, shortFn(vc.Call.StaticCallee()), retried)
 				}
 			}
 		}
